@@ -292,6 +292,17 @@ class PySrv(object):
         if k == 'who':
             sc = self.chan(a[1])
             return self.who_reply(sc) if sc is not None and self.bot_in(sc) else []
+        if k == 'modeis':
+            sc = self.chan(a[1])
+            if sc is None: return []
+            me = self.botnick()
+            return [('M', S, '324', [me, sc.name, '+' + ''.join(sc.modes)] + [v for v in sc.modes.values() if v is not None]),
+                    ('M', S, '329', [me, sc.name, sc.created])]
+        if k == 'banlist':
+            sc = self.chan(a[1])
+            if sc is None: return []
+            me = self.botnick()
+            return [('M', S, '367', [me, sc.name, m, S, '0']) for m in sc.bans] + [('M', S, '368', [me, sc.name, 'End of channel ban list'])]
         if k == 'reconnect':
             n0 = self.cfg['botNick']
             j = self.uid(n0)
@@ -434,6 +445,8 @@ def act_line(a):
     if k == 'chghost': return 'act\tchghost\t%s\t%s\t%s' % tuple(wire.enc(x) for x in a[1:])
     if k == 'names': return 'act\tnames\t%s' % wire.enc(a[1])
     if k == 'who': return 'act\twho\t%s' % wire.enc(a[1])
+    if k == 'modeis': return 'act\tmodeis\t%s' % wire.enc(a[1])
+    if k == 'banlist': return 'act\tbanlist\t%s' % wire.enc(a[1])
     if k == 'reconnect': return 'act\treconnect'
     raise ValueError(a)
 
@@ -588,10 +601,15 @@ def gen_action(r, S, findings=False):
         return ('topic', r.choice(['', _some_nick(r, S)]), _bot_chan(r, S), r.choice(TEXTS + ['bad\ntext']))
     if x < 0.89:
         return ('chghost', _some_nick(r, S, 0.25), r.choice(IDENTS + ['bad id']), r.choice(HOSTS + ['bad@host']))
-    if x < 0.93:
+    if x < 0.915:
         return ('names', _bot_chan(r, S))
-    if x < 0.97:
+    if x < 0.94:
         return ('who', _bot_chan(r, S))
+    if x < 0.96:
+        # the reply to the MODE query the bot sends on joining; it may arrive after the bot has left again
+        return ('modeis', _bot_chan(r, S) if r.random() < 0.5 else _some_chan(r, S))
+    if x < 0.975:
+        return ('banlist', _bot_chan(r, S) if r.random() < 0.5 else _some_chan(r, S))
     return ('reconnect',)
 
 HOSTILE_CMDS = ['JOIN', 'PART', 'KICK', 'QUIT', 'NICK', 'MODE', 'TOPIC', '353', '352', '354', '324', '329', '332', '367',
